@@ -71,3 +71,25 @@ Theorem C07_non_comment_never_toggles :
   (forall (ign : bool) (r : list token),
    toggle_marks ign (tok :: r) = ign :: toggle_marks ign r).
 Proof. exact toggle_non_comment_ignored. Qed.
+
+(* the asm marks: every token of an instruction line, plus conditional directives on such a line (F33) *)
+Theorem C07_asm_marks_keep_instruction_tokens_and_add_only_directives :
+  forall (toks : list token) (lines : list (LogicalLineType * list nat)) 
+    (i : nat) (tok : token),
+  nth_error toks i = Some tok ->
+  exists m : bool,
+    nth_error (asm_marks toks lines) i = Some m /\
+    (asm_marked lines i = true -> m = true) /\
+    (m = true -> asm_marked lines i = true \/ is_cond_dir_tok tok = true).
+Proof. exact asm_marks_spec. Qed.
+
+Theorem C07_ignore_marks_spec :
+  forall (toks : list token) (lines : list (LogicalLineType * list nat)) 
+    (i : nat) (tok : token),
+  nth_error toks i = Some tok ->
+  exists am : bool,
+    nth_error (asm_marks toks lines) i = Some am /\
+    nth_error (ignore_marks toks lines) i =
+    Some (state_at false toks i || is_toggle_tok tok || am).
+Proof. exact ignore_marks_spec. Qed.
+
